@@ -262,3 +262,37 @@ func VerifWrapLLU(c Collection, wrap func(LowerLevelUpdate) LowerLevelUpdate) {
 	m := c.(*collection)
 	m.options.LowerLevelUpdate = wrap(m.options.LowerLevelUpdate)
 }
+
+// VerifIndexedSegment builds an in-memory segment from the given keys (values "v"+key), sorts it and
+// builds its key index with the given quota / minimum key bytes exactly as loading a persisted segment does.
+type VerifIndexedSegment struct {
+	seg *segment
+}
+
+func NewVerifIndexedSegment(keys []string, quota, minKeyBytes int) *VerifIndexedSegment {
+	s, _ := newSegment(len(keys), 64)
+	for _, k := range keys {
+		s.Set([]byte(k), []byte("v"+k))
+	}
+	sort.Sort(s)
+	if quota > 0 {
+		s.buildIndex(quota, minKeyBytes)
+	}
+	return &VerifIndexedSegment{s}
+}
+
+// HasIndex reports whether an index was built, and its hop / number of indexed keys.
+func (v *VerifIndexedSegment) HasIndex() (bool, int, int) {
+	if v.seg.index == nil {
+		return false, 0, 0
+	}
+	return true, v.seg.index.hop, v.seg.index.numKeys
+}
+
+// FindKeyPos is segment.findKeyPos (point lookup).
+func (v *VerifIndexedSegment) FindKeyPos(key string) (int, error) { return v.seg.findKeyPos([]byte(key)) }
+
+// FindStartPos is segment.findStartKeyInclusivePos (range start / range end).
+func (v *VerifIndexedSegment) FindStartPos(key string) int {
+	return v.seg.findStartKeyInclusivePos([]byte(key))
+}
